@@ -647,6 +647,8 @@ def m_read(c):
     c.I.emit("read", call=c, buf_len=ln, buf_len_lin=l)
     # Err
     s_err = c.fork()
+    if c.I.opt.get("rderr_partition") and not any(x[0] == "rderr" for x in s_err.tag):
+        s_err.tag = s_err.tag + (("rderr", 1),)      # the source failed: kept apart so that what is reported for it can be checked
     c.ret(res_err(Top()), st=s_err)
     # Ok(0): end of stream
     s0 = c.fork()
